@@ -160,7 +160,8 @@ CLAIMS = {
         text='BOUNDED stand-in (never counted as proved): on a real loaded object of a model with plain, optimistic=False, volatile, float and NULL-valued attributes, for every subset '
              'of attributes read and every write-before / write-after variant, Entity._construct_optimistic_criteria_ yields exactly the attributes read before being written '
              '(excluding volatile / non-optimistic ones) against the value that was read (IS NULL for None); Entity._save_updated_ adds the criteria iff the session is optimistic and '
-             'the object is not locked for update, raises OptimisticCheckError on zero affected rows, and runs the UPDATE inside the transaction.',
+             'the object is not locked for update, raises OptimisticCheckError on zero affected rows, and runs the UPDATE inside the transaction. End to end on a diamond hierarchy: 4 classes x 5 attributes x 9 ways of '
+             'reading (attribute access, to_dict, query conditions over several entities of the hierarchy, get() by value) x with / without a foreign change: writing the object afterwards fails iff the attribute was changed.',
         note='Schedules of concurrent sessions are outside the technique; atomic evaluation of the WHERE clause by the database is assumed. Bounds: one entity, 5 column attributes.',
         technique='contracts on real functions, bounded exhaustive enumeration of read/write sets (contract-based family, bounded stand-in)'),
     'C01': dict(
